@@ -30,7 +30,7 @@ RULE = ("generated histories of 2-14 operations over {connect, connect that drop
         "lost), server key-count notification, restart, consume (a peer fetches a bundle and sends a first message), re-offer (the "
         "server hands an already consumed key to a second peer)} for one account started from nothing with batches of 6 keys and a "
         "refill threshold of 4, plus three registered peers; which of the keys on offer the server hands out is generated (first, any, the "
-        "highest id); every operation is settled before the next. Non-trivial = a lost or "
+        "highest id); optionally the account starts with a key numbering near the end of the 24-bit id space (latest signed prekey id 7 / MAX-1 / MAX, a confirmed one-time prekey with id MAX-9 / MAX-4 / MAX-1 written through the store API before the first login); every operation is settled before the next. Non-trivial = a lost or "
         "refused confirmation, or a restart between an offer and its confirmation, or a consumed key. Distinct = canonical JSON.")
 ASSUMPTIONS = [
     "server double: key directory handing out each one-time prekey once (re-offering is an explicit operation)",
